@@ -188,7 +188,9 @@ def drive_steps(env, max_steps, on_step=None, on_boundary=None):
             break
         except StopSimulation:
             pass
-        except Exception:
+        except BaseException as e:
+            if isinstance(e, (KeyboardInterrupt, SystemExit)) or type(e).__name__ == 'Hang':
+                raise
             pass  # recorded by the tap as an 'X' record
         n += 1
         if on_step is not None:
